@@ -295,9 +295,27 @@ func (d *Decimal) round() (int64, error) {
 		return 0, err
 	}
 
-	floatValue := float64(ud.n.Int64()) / math.Pow10(int(ud.scale))
-	roundedValue := math.Round(floatValue)
-	return int64(roundedValue), nil
+	if int64(ud.scale) > int64(len(ud.n.String())) {
+		// The magnitude is below 0.1; don't materialise 10^scale for a huge scale.
+		return 0, nil
+	}
+
+	// Exact integer arithmetic: the coefficient may be far wider than an int64 or a
+	// float64 mantissa even when the rounded result is small. Halves round away from zero.
+	pow := new(big.Int).Exp(big.NewInt(10), big.NewInt(int64(ud.scale)), nil)
+	quo, rem := new(big.Int).QuoRem(ud.n, pow, new(big.Int))
+	rem.Abs(rem).Lsh(rem, 1)
+	if rem.Cmp(pow) >= 0 {
+		quo.Add(quo, big.NewInt(int64(ud.n.Sign())))
+	}
+	if !quo.IsInt64() {
+		return 0, &strconv.NumError{
+			Func: "ParseInt",
+			Num:  d.String(),
+			Err:  strconv.ErrRange,
+		}
+	}
+	return quo.Int64(), nil
 }
 
 // Truncate returns a new decimal, truncated to the given number of
